@@ -8,6 +8,7 @@
            end: every line has an encoding, every label is defined once, every referenced label or
            symbol is defined.
 """
+import re
 from lib import *
 import prog, gen_c
 
@@ -99,9 +100,15 @@ def run(chk):
     for i in range(chk.scale(250, 3000)):
         sources.append((gen_c.program(rng, placement=rng.choice(["zp", "mixed", "abs"]), shorts=rng.random() < 0.55,
                                       inline_rate=0.6, gotos=True, probe=('lte16', 'zero-compare', 'reg-compare')).text, ()))
+    # prototypes before definitions: parameters and locals of forward-declared functions
+    for protos in ("void add(char a, char b);", "void add(char a, char b); char get(char k);", ""):
+        sources.append(("char r;\n%s\nvoid main() { add(1, 2); r = get(3); }\nvoid add(char a, char b) { char t; t = a; r = t + b; }\n"
+                        "char get(char k) { char u; u = k + 1; return u; }\n" % protos if "get" in protos or not protos else
+                        "char r;\n%s\nvoid main() { add(1, 2); }\nvoid add(char a, char b) { char t; t = a; r = t + b; }\n" % protos, ()))
     # every kind of assignable operand x assignment form x right operand, one statement per program (tools/idioms.py)
     import idioms
     sources += [(idioms.wrap(st), ()) for st in idioms.statements()]
+    sources += [(sp, ()) for sp in idioms.signed_programs()]
     nfun = 0
     for (src, defs) in sources:
         for level in (0, 1):
@@ -113,9 +120,21 @@ def run(chk):
             globals_ = set(unhx(f["name"]) for f in r["funcs"]) | set(env.keys()) | KNOWN_SYMBOLS
             m.req("drop c13")
             m.req("env c13 %s" % " ".join("%s=%d" % (hx(k), v) for k, v in env.items()))
+            # storage: a variable that is not global gets its cell from the list of locals of a function (that is all
+            # a linker sees); an operand naming a local nobody owns is a symbol the assembler will not find
+            owned = set(n for f in r["funcs"] for n in f.get("locals", []))
+            orphan = set(unhx(v["name"]) for v in r["vars"] if not v["global"] and v["name"] not in owned)
             for f in r["funcs"]:
                 if f["code"] is None or f["inline"]:
                     continue      # the body of an inline function is only ever emitted inside its callers
+                if orphan:
+                    for l in f["code"]["lines"]:
+                        if l[0] == "I":
+                            ids = set(re.findall(r"[A-Za-z_][A-Za-z0-9_]*", unhx(l[2])))
+                            if ids & orphan:
+                                chk.fail("operand-names-unallocated-local", "function %s: `%s` names the local %s, which no function owns (no storage is ever reserved for it)" % (
+                                         unhx(f["name"]), show_line(l).strip(), sorted(ids & orphan)[0]), {"source": src, "level": level, "function": unhx(f["name"]), "line": show_line(l)})
+                                break
                 nfun += 1
                 has_inl = any(l[0] == "L" and "inline" in unhx(l[1]) for l in f["code"]["lines"])
                 chk.count("functions_with_expansions" if has_inl else "functions_plain")
